@@ -6,10 +6,16 @@ import numpy as np
 GETTERS = {
     3: ["array", "array_upper_view", "areas_exact", "areas_approx", "adjacency", "borders", "distances"],
     4: ["array_upper", "array_full", "volumes", "adjacency", "borders", "distances"],
+    "fg": ["full_array", "total_volumes", "full_adjacency", "full_borders", "full_distances", "pos_adjacency", "pos_borders",
+           "pos_distances", "pos_volumes"],
 }
 
 
 def make_grid(alg, N):
+    if alg.startswith("FG|"):   # a full SE(3) grid: "FG|<b name>|<o name>|<t name>|<0/1 cartesian>"
+        from molgri.space.fullgrid import FullGrid
+        _, b, o, t, cart = alg.split("|")
+        return FullGrid(b, o, t, position_grid_cartesian=bool(int(cart)))
     from molgri.space.rotobj import SphereGrid3DFactory, SphereGrid4DFactory
     if alg in ("ico", "cube3D", "randomS"):
         return SphereGrid3DFactory.create(alg_name=alg, N=N)
@@ -17,6 +23,16 @@ def make_grid(alg, N):
 
 
 def call_getter(g, name):
+    import numpy as np
+    fg = {"full_array": lambda: g.get_full_grid_as_array(), "total_volumes": lambda: np.asarray(g.get_total_volumes()),
+          "full_adjacency": lambda: g.get_full_adjacency(), "full_borders": lambda: g.get_full_borders(),
+          "full_distances": lambda: g.get_full_distances(),
+          "pos_adjacency": lambda: g.get_position_grid().get_adjacency_of_position_grid(),
+          "pos_borders": lambda: g.get_position_grid().get_borders_of_position_grid(),
+          "pos_distances": lambda: g.get_position_grid().get_distances_of_position_grid(),
+          "pos_volumes": lambda: np.asarray(g.get_position_grid().get_all_position_volumes())}
+    if name in fg:
+        return fg[name]()
     if name == "array":
         return g.get_grid_as_array()
     if name == "array_upper_view":
